@@ -545,6 +545,41 @@ pub fn run(args: &Args, out: &mut Out) -> &'static str {
         let p: Vec<usize> = keyed.into_iter().map(|x| x.1).collect();
         window_case(out, rng.below(256) as u8, &p, "bounded-displacement");
     }
+    // the `Default` impl is the same resequencer as `new()`: same answers on a run that buffers, wraps and drains
+    {
+        let mut a: Resequencer<u32> = Resequencer::new();
+        let mut b: Resequencer<u32> = Default::default();
+        let mut trace = |r: &mut Resequencer<u32>| -> String {
+            let mut t = format!("next={};", r.next_sequence());
+            r.set_next_sequence(250);
+            for (k, s) in [252u8, 251, 250, 255, 253, 254, 1, 0, 250, 2].iter().enumerate() {
+                t.push_str(&match r.process(*s, k as u32) {
+                    ProcessResult::MessageNextInSequence(m) => format!("n{};", m),
+                    ProcessResult::OutOfSequenceMessageInserted => "i;".to_string(),
+                    ProcessResult::DuplicateMessageSequence => "d;".to_string(),
+                });
+                loop {
+                    match r.drain() {
+                        DrainResult::Message(m) => t.push_str(&format!("m{};", m)),
+                        DrainResult::Empty => {
+                            t.push_str("e;");
+                            break;
+                        }
+                        DrainResult::SequenceMissing => {
+                            t.push_str("x;");
+                            break;
+                        }
+                    }
+                }
+            }
+            t
+        };
+        let (ta, tb) = (trace(&mut a), trace(&mut b));
+        if ta != tb {
+            out.fail("release-carries-expected-number", "default-differs-from-new", format!("Resequencer::default() behaves differently from new(): {} vs {}", tb, ta));
+        }
+        out.count("default-vs-new");
+    }
     // (f)
     for (k, e) in [0u8, 1, 127, 128, 254, 255, 77, 200].into_iter().enumerate() {
         for v in 0..4u64 {
